@@ -191,6 +191,8 @@ def op_get(w, res, uri, hist, has=False):
             t = lk.get_template(uri)
     except Exception as e:
         exc = e
+    if has and hasr is True and isinstance(exc, ex.TemplateLookupException):
+        res.violate("has-template-disagrees", "%s returned True, but get_template(%r) right after it raised %s: %s" % (what, uri, type(exc).__name__, exc), replay_case=hist)
     if has and exc is None and hasr is False:
         # has_template() turns a lookup failure into False: judge it as that failure
         exc = ex.TopLevelLookupException("has_template returned False") if first_dir_with(w, uri) is None and E is None else ex.TemplateLookupException("has_template returned False")
